@@ -313,4 +313,79 @@ theorem matchRepl_none (p : Pattern) (rep : List RepTok) (mask s : List Char)
     (h : matchPat p s = none) : matchRepl p rep mask s = none := by
   simp [matchRepl, h]
 
+
+/-! ### inversions of `Consumes` -/
+
+/-- a mandatory item (`lo ≥ 1`) consumed at least one character of its class -/
+theorem Consumes.exists_mem {items s s'} (h : Consumes items s s') (it : Item) (hit : it ∈ items)
+    (hlo : 1 ≤ it.lo) : ∃ c ∈ s, it.cls.test c = true := by
+  induction h with
+  | nil => simp at hit
+  | cons it' rest seg s1 s' hseg hlo' _ _ ih =>
+    rcases List.mem_cons.1 hit with h | h
+    · subst h
+      cases seg with
+      | nil => simp at hlo'; omega
+      | cons x xs => exact ⟨x, by simp, hseg x (by simp)⟩
+    · obtain ⟨c, hc, ht⟩ := ih h
+      exact ⟨c, by simp [hc], ht⟩
+
+/-- a pattern with a mandatory item whose class does not occur in the text cannot match it -/
+theorem matchPat_none_of_missing (p : Pattern) (s : List Char) (it : Item)
+    (hit : it ∈ p.g1 ++ (p.mid ++ p.g2)) (hlo : 1 ≤ it.lo) (hs : ∀ c ∈ s, it.cls.test c = false) :
+    matchPat p s = none := by
+  cases hm : matchPat p s with
+  | none => rfl
+  | some b =>
+    obtain ⟨s1, s2, s3, c1, c2, c3, _⟩ := matchPat_some _ _ _ hm
+    obtain ⟨c, hc, ht⟩ := (c1.append (c2.append c3)).exists_mem it hit hlo
+    rw [hs c hc] at ht; cases ht
+
+theorem Consumes.one_inv {c : Cls} {rest : List Item} {s s' : List Char}
+    (h : Consumes (⟨c, 1, some 1⟩ :: rest) s s') : ∃ a t, s = a :: t ∧ c.test a = true ∧ Consumes rest t s' := by
+  cases h with
+  | cons _ _ seg s1 _ hseg hlo hhi hrest =>
+    have h1 : seg.length = 1 := by have := hhi 1 rfl; simp at hlo; omega
+    match seg, h1 with
+    | [a], _ => exact ⟨a, s1, rfl, hseg a (by simp), hrest⟩
+
+/-- an unbounded repeat on `r ++ t` (`r` in the class, `t` not continuing it) consumed a prefix of `r` -/
+theorem Consumes.star_inv {it : Item} {rest : List Item} {r t s' : List Char}
+    (h : Consumes (it :: rest) (r ++ t) s') (ht : ∀ c, t.head? = some c → it.cls.test c = false) :
+    ∃ j, it.lo ≤ j ∧ j ≤ r.length ∧ Consumes rest (r.drop j ++ t) s' := by
+  generalize hs : r ++ t = s at h
+  cases h with
+  | cons _ _ seg s1 _ hseg hlo hhi hrest =>
+    -- seg is a prefix of r
+    have hle : seg.length ≤ r.length := by
+      by_cases hgt : seg.length ≤ r.length
+      · exact hgt
+      · exfalso
+        have hlt : r.length < seg.length := by omega
+        -- the character of seg at position r.length is the head of t
+        have h1 : (r ++ t)[r.length]? = (seg ++ s1)[r.length]? := by rw [hs]
+        rw [List.getElem?_append_right (Nat.le_refl _), Nat.sub_self,
+            List.getElem?_append_left hlt] at h1
+        have hx : seg[r.length]? = some seg[r.length] := List.getElem?_eq_getElem hlt
+        rw [hx] at h1
+        have hhead : t.head? = some seg[r.length] := by
+          cases t with
+          | nil => simp at h1
+          | cons y ys => simpa using h1
+        have := ht _ hhead
+        rw [hseg _ (List.getElem_mem hlt)] at this
+        cases this
+    refine ⟨seg.length, hlo, hle, ?_⟩
+    have h2 : r = seg ++ r.drop seg.length := by
+      have h3 : (r ++ t).take seg.length = (seg ++ s1).take seg.length := by rw [hs]
+      rw [List.take_append_of_le_length hle, List.take_left'] at h3
+      · conv => lhs; rw [← List.take_append_drop seg.length r, h3]
+      · rfl
+    have h4 : s1 = r.drop seg.length ++ t := by
+      have h5 : (r ++ t).drop seg.length = (seg ++ s1).drop seg.length := by rw [hs]
+      rw [List.drop_append_of_le_length hle, List.drop_left'] at h5
+      · exact h5.symm
+      · rfl
+    rw [← h4]; exact hrest
+
 end Oslo.Flat
